@@ -26,6 +26,8 @@ def main():
     for seed in seeds:
         pid = seed.split("-")[0]
         props = [p for p in [pid] + EXTRA.get(pid, []) if os.path.exists(os.path.join(VERIF, "harness", "props", p + ".py"))]
+        if os.environ.get("SEED_PROPS"):   # which checks besides the seed's own catch it: SEED_PROPS=C13,C02
+            props = os.environ["SEED_PROPS"].split(",")
         wt = os.path.join(SCR, "wt")
         sh(f"git -C /repo worktree remove --force {wt}")
         sh(f"git -C /repo worktree add --detach {wt}")
